@@ -145,7 +145,7 @@ func (g *hp) def() string {
 	case 3:
 		n := g.name("o")
 		g.objs = append(g.objs, n)
-		return fmt.Sprintf("%s := JSON.dec('{\"%s\": 1, \"%s\": [2, {\"%s\": 3, \"%s\": 4}], \"%s\": {\"%s\": 5, \"%s\": 6}}')", n,
+		return fmt.Sprintf("%s := JSON.dec(`{\"%s\": 1, \"%s\": [2, {\"%s\": 3, \"%s\": 4}], \"%s\": {\"%s\": 5, \"%s\": 6}}`)", n,
 			hpKeys[g.t.Intn(8)], hpKeys[g.t.Intn(8)], hpKeys[g.t.Intn(8)], hpKeys[g.t.Intn(8)], hpKeys[g.t.Intn(8)], hpKeys[g.t.Intn(8)], hpKeys[g.t.Intn(8)])
 	default:
 		n := g.name("o")
